@@ -158,6 +158,39 @@ Section AvoidTop.
   Qed.
   Lemma av_forget {A} (m : M A) : all_prog S m -> all_prog S (forget m).
   Proof. intros H. unfold forget. apply all_bind; [exact H | intro; apply all_ret]. Qed.
+
+  (* a subcontext has its own annotations file; tool results are separate files *)
+  Lemma av_sub_init s0 : all_prog S (sub_init s0).
+  Proof. unfold S. both; unfold sub_init, annot_path_at, cdir; av_tac (avoids_path annot_path); av_tac (avoids_path log_path). Qed.
+  Lemma av_store_key_at s0 name K : all_prog S (store_key_at (cdir (Some s0)) name K).
+  Proof. unfold S. both; unfold store_key_at, name_link_at, cdir; av_tac (avoids_path annot_path); av_tac (avoids_path log_path). Qed.
+  Lemma av_store_annotation_at s0 name a : all_prog S (store_annotation_at (cdir (Some s0)) name a).
+  Proof.
+    unfold S. both; unfold store_annotation_at, annot_lock_at, annot_path_at, annot_tmp_at, cdir;
+      av_tac (avoids_path annot_path); av_tac (avoids_path log_path).
+  Qed.
+  Lemma av_retrieve_annotation_at s0 name : all_prog S (retrieve_annotation_at (cdir (Some s0)) name).
+  Proof.
+    unfold S. both; unfold retrieve_annotation_at, annot_lock_at, annot_path_at, cdir;
+      av_tac (avoids_path annot_path); av_tac (avoids_path log_path).
+  Qed.
+  Lemma av_sub_store s0 m : all_prog S (sub_store s0 m).
+  Proof.
+    unfold sub_store. apply all_bind; [apply av_transaction, av_store_model_entry | intro].
+    apply all_bind; [apply av_store_key_at | intro]. apply av_store_annotation_at.
+  Qed.
+  Lemma av_sub_retrieve s0 name : all_prog S (sub_retrieve s0 name).
+  Proof.
+    unfold sub_retrieve. apply all_bind; [apply all_get | intro f].
+    destruct (resolve_name_at (cdir (Some s0)) f name); [|apply all_fail].
+    apply all_bind; [apply av_snapshot; apply all_ret | intro].
+    apply all_bind; [apply av_snapshot; apply av_retrieve_model_entry | intro].
+    apply all_bind; [apply av_retrieve_annotation_at | intro]. apply all_ret.
+  Qed.
+  Lemma av_store_results c id : all_prog S (store_results c id).
+  Proof. unfold S. both; unfold store_results, results_json, results_csv, cdir; destruct c; av_tac (avoids_path annot_path); av_tac (avoids_path log_path). Qed.
+  Lemma av_retrieve_results c : all_prog S (retrieve_results c).
+  Proof. unfold S. both; unfold retrieve_results, results_json, cdir; destruct c; av_tac (avoids_path annot_path); av_tac (avoids_path log_path). Qed.
 End AvoidTop.
 
 Lemma av_annot_store_message pth d s msg : all_prog (avoids_path annot_path) (store_message pth d s msg).
@@ -275,6 +308,11 @@ Proof.
   - apply Hav, (av_forget annot_path), (av_snapshot _ Hp), (av_read_model _ Hp).
   - apply Hav, (av_forget annot_path), (av_retrieve_annotation _ Hp).
   - apply Hav, (av_forget annot_path), (av_retrieve_log _ Hp).
+  - apply Hav, (av_sub_init _ Hp).
+  - apply Hav, (av_sub_store _ Hp).
+  - apply Hav, (av_forget annot_path), (av_sub_retrieve _ Hp).
+  - apply Hav, (av_store_results _ Hp).
+  - apply Hav, (av_forget annot_path), (av_retrieve_results _ Hp).
 Qed.
 
 Lemma trace_ann name a w : forall f0,
@@ -385,6 +423,11 @@ Proof.
   - apply keepsR_avoid_log, (av_forget log_path), (av_snapshot _ Hp), (av_read_model _ Hp).
   - apply keepsR_avoid_log, (av_forget log_path), (av_retrieve_annotation _ Hp).
   - apply keepsR_avoid_log, (av_forget log_path), (av_retrieve_log _ Hp).
+  - apply keepsR_avoid_log, (av_sub_init _ Hp).
+  - apply keepsR_avoid_log, (av_sub_store _ Hp).
+  - apply keepsR_avoid_log, (av_forget log_path), (av_sub_retrieve _ Hp).
+  - apply keepsR_avoid_log, (av_store_results _ Hp).
+  - apply keepsR_avoid_log, (av_forget log_path), (av_retrieve_results _ Hp).
 Qed.
 
 Lemma crash_app_le a b f k : k <= length a -> crash f (a ++ b) k None = crash f a k None.
@@ -418,4 +461,193 @@ Proof.
       * exists 0. cbn. rewrite app_nil_r. exact Hd.
       * exists (length (log_rows [i])). rewrite (log_rows_cons i w), firstn_app, firstn_all, Nat.sub_diag. cbn [firstn].
         rewrite app_nil_r. exact Hd.
+Qed.
+
+(* ========================================================================================= *)
+(* tool results of a context (results.json): what a reader obtains was stored by a store_results    *)
+Definition lastc (q : path) : option comp := match rev q with c :: _ => Some c | [] => None end.
+Definition is_resjson (q : option path) : bool :=
+  match q with Some r => match lastc r with Some CResJson => true | _ => false end | None => false end.
+(* operations that touch no results.json at all *)
+Definition noresjson (o : op) : bool := negb (is_resjson (wtarget o)) && negb (is_resjson (wsource o)).
+
+Lemma noresjson_avoids c o : noresjson o = true -> avoids_path (results_json (cdir c)) o = true.
+Proof.
+  unfold noresjson, avoids_path. intros H. apply andb_true_iff in H. destruct H as [H1 H2].
+  assert (Hp : forall q, is_resjson q = false -> not_path (results_json (cdir c)) q = true).
+  { intros [r|] Hr; [|reflexivity]. cbn. apply negb_true_iff. apply path_eqb_neq. intros ->.
+    destruct c; cbn in Hr; discriminate. }
+  apply negb_true_iff in H1. apply negb_true_iff in H2. rewrite (Hp _ H1), (Hp _ H2). reflexivity.
+Qed.
+
+Ltac nr_tac := av_tac noresjson.
+
+Lemma nr_ctx_init : all_prog noresjson ctx_init.
+Proof. unfold ctx_init. nr_tac. Qed.
+Lemma nr_transaction {A} K (body : M A) : all_prog noresjson body -> all_prog noresjson (transaction K body).
+Proof. intros H. unfold transaction. nr_tac. exact H. Qed.
+Lemma nr_store_model_entry m : all_prog noresjson (store_model_entry m).
+Proof. unfold store_model_entry, store_model, store_modelfit_results, store_dataset. cbv zeta. nr_tac. Qed.
+Lemma nr_store_key name K : all_prog noresjson (store_key name K).
+Proof. unfold store_key. nr_tac. Qed.
+Lemma nr_store_annotation name a : all_prog noresjson (store_annotation name a).
+Proof. unfold store_annotation. nr_tac. Qed.
+Lemma nr_store_message pth d s msg : all_prog noresjson (store_message pth d s msg).
+Proof. unfold store_message. nr_tac. Qed.
+Lemma nr_read_model K : all_prog noresjson (read_model K).
+Proof. unfold read_model. nr_tac. Qed.
+Lemma nr_snapshot {A} K (body : M A) : all_prog noresjson body -> all_prog noresjson (snapshot K body).
+Proof. intros H. unfold snapshot. nr_tac. exact H. Qed.
+Lemma nr_retrieve_model_entry K : all_prog noresjson (retrieve_model_entry K).
+Proof.
+  unfold retrieve_model_entry. apply all_bind; [apply nr_read_model | intro].
+  apply all_bind; [apply nr_read_model | intro]. nr_tac.
+Qed.
+Lemma nr_retrieve_annotation name : all_prog noresjson (retrieve_annotation name).
+Proof. unfold retrieve_annotation. nr_tac. Qed.
+Lemma nr_retrieve_log : all_prog noresjson retrieve_log.
+Proof. unfold retrieve_log. nr_tac. Qed.
+Lemma nr_ctx_retrieve name : all_prog noresjson (ctx_retrieve name).
+Proof.
+  unfold ctx_retrieve. apply all_bind; [apply all_get | intro f].
+  destruct (resolve_name f name); [|apply all_fail].
+  apply all_bind; [apply nr_snapshot; apply all_ret | intro].
+  apply all_bind; [apply nr_snapshot; apply nr_retrieve_model_entry | intro].
+  apply all_bind; [apply nr_retrieve_annotation | intro]. apply all_ret.
+Qed.
+Lemma nr_forget {A} (m : M A) : all_prog noresjson m -> all_prog noresjson (forget m).
+Proof. intros H. unfold forget. apply all_bind; [exact H | intro; apply all_ret]. Qed.
+Lemma nr_metadata K id : all_prog noresjson (db_store_metadata K id).
+Proof. unfold db_store_metadata. apply nr_transaction. nr_tac. Qed.
+Lemma nr_sub_init s0 : all_prog noresjson (sub_init s0).
+Proof. unfold sub_init, annot_path_at, cdir. nr_tac. Qed.
+Lemma nr_store_key_at s0 name K : all_prog noresjson (store_key_at (cdir (Some s0)) name K).
+Proof. unfold store_key_at, name_link_at, cdir. nr_tac. Qed.
+Lemma nr_store_annotation_at s0 name a : all_prog noresjson (store_annotation_at (cdir (Some s0)) name a).
+Proof. unfold store_annotation_at, annot_lock_at, annot_path_at, annot_tmp_at, cdir. nr_tac. Qed.
+Lemma nr_retrieve_annotation_at s0 name : all_prog noresjson (retrieve_annotation_at (cdir (Some s0)) name).
+Proof. unfold retrieve_annotation_at, annot_lock_at, annot_path_at, cdir. nr_tac. Qed.
+Lemma nr_sub_retrieve s0 name : all_prog noresjson (sub_retrieve s0 name).
+Proof.
+  unfold sub_retrieve. apply all_bind; [apply all_get | intro f].
+  destruct (resolve_name_at (cdir (Some s0)) f name); [|apply all_fail].
+  apply all_bind; [apply nr_snapshot; apply all_ret | intro].
+  apply all_bind; [apply nr_snapshot; apply nr_retrieve_model_entry | intro].
+  apply all_bind; [apply nr_retrieve_annotation_at | intro]. apply all_ret.
+Qed.
+Lemma nr_retrieve_results c : all_prog noresjson (retrieve_results c).
+Proof. unfold retrieve_results, results_json, cdir. destruct c; nr_tac. Qed.
+
+(* what a reader of context c's results.json can obtain *)
+Definition res_ok (c : option str) (P : N -> Prop) (f : fs) : Prop :=
+  forall id, snd (retrieve_results c f) = inr id -> P id.
+
+Lemma retrieve_results_eq c f :
+  snd (retrieve_results c f) =
+  match read_node (lookup f (results_json (cdir c))) with
+  | Some [t; id] => if N.eqb t T_TRES then inr id else inl ECorrupt
+  | Some _ => inl ECorrupt
+  | None => inl EFileNotFound
+  end.
+Proof.
+  unfold retrieve_results, bind. rewrite read_file_eq. cbn [fst snd].
+  destruct (read_node (lookup f (results_json (cdir c)))) as [[|t [|id [|? ?]]]|]; try reflexivity.
+  cbn. destruct (N.eqb t T_TRES); reflexivity.
+Qed.
+
+Lemma at_path_res_ok c (P : N -> Prop) : at_path (results_json (cdir c)) (res_ok c P).
+Proof. intros f g E H id. rewrite retrieve_results_eq, E, <- retrieve_results_eq. apply H. Qed.
+
+Lemma cdir_inj c c' : results_json (cdir c) = results_json (cdir c') -> c = c'.
+Proof. destruct c, c'; cbn; intros E; try discriminate; [injection E as ->|]; reflexivity. Qed.
+
+Lemma option_eq_dec_str (c c' : option str) : c = c' \/ c <> c'.
+Proof.
+  destruct c as [a|], c' as [b|]; try (right; discriminate); [|left; reflexivity].
+  destruct (str_eqb a b) eqn:E; [left; apply str_eqb_eq in E; subst; reflexivity|].
+  right. intros [= ->]. rewrite str_eqb_refl in E. discriminate.
+Qed.
+
+Lemma keeps_store_results c (P : N -> Prop) c' id :
+  (c' = c -> P id) -> keepsR true (res_ok c P) (store_results c' id).
+Proof.
+  intros HP. destruct (option_eq_dec_str c' c) as [-> | Hne].
+  - (* this context's results: the json is written (possibly cut), then the csv *)
+    intros f HR. unfold store_results, bind. rewrite write_file_eq.
+    set (pj := results_json (cdir c)). set (pc := results_csv (cdir c)).
+    assert (Hst : stable pj (res_ok c P)) by apply at_path_stable, at_path_res_ok.
+    assert (Hj1 : res_ok c P (apply_op (OpenW pj [T_TRES; id]) f)).
+    { cbn [apply_op]. destruct (can_write f pj); [|exact HR]. intros id' E. rewrite retrieve_results_eq in E. fold pj in E.
+      rewrite lookup_set_same in E. cbn [read_node] in E. rewrite N.eqb_refl in E. cbn in E. inversion E. subst. apply HP. reflexivity. }
+    assert (Hj2 : forall j, res_ok c P (tear_op (OpenW pj [T_TRES; id]) j f)).
+    { intros j. cbn [tear_op]. destruct (can_write f pj); [|exact HR]. intros id' E. rewrite retrieve_results_eq in E. fold pj in E.
+      rewrite lookup_set_same in E. destruct j as [|[|j]]; cbn [read_node firstn] in E; rewrite ?firstn_nil in E; try discriminate E.
+      rewrite N.eqb_refl in E. cbn in E. inversion E. subst. apply HP. reflexivity. }
+    assert (Hav : avoids_path pj (OpenW pc [T_TCSV; id]) = true).
+    { unfold avoids_path, pj, pc. cbn. rewrite andb_true_r. apply negb_true_iff, path_eqb_neq. destruct c; discriminate. }
+    destruct (can_write f pj); cbn [fst snd].
+    + rewrite write_file_eq. destruct (can_write (run_ops [OpenW pj [T_TRES; id]] f) pc); cbn [fst app always];
+        (split; [intros _; exact Hj2|]); (split; [exact Hj1|]);
+        destruct (Hst _ _ Hav Hj1) as [H1 H2]; (split; [intros _; exact H2|]); split; [exact H1 | exact I | exact H1 | exact I].
+    + cbn [always]. split; [intros _; exact Hj2 | split; [exact Hj1 | exact I]].
+  - eapply keepsR_avoid; [apply at_path_stable, at_path_res_ok|].
+    intros f. unfold store_results, bind. rewrite write_file_eq.
+    assert (Hne' : results_json (cdir c') <> results_json (cdir c)) by (intros E; apply Hne, cdir_inj, E).
+    assert (H1 : avoids_path (results_json (cdir c)) (OpenW (results_json (cdir c')) [T_TRES; id]) = true).
+    { unfold avoids_path. cbn. rewrite andb_true_r. apply negb_true_iff, path_eqb_neq. exact Hne'. }
+    assert (H2 : avoids_path (results_json (cdir c)) (OpenW (results_csv (cdir c')) [T_TCSV; id]) = true).
+    { unfold avoids_path. cbn. rewrite andb_true_r. apply negb_true_iff, path_eqb_neq. destruct c, c'; discriminate. }
+    destruct (can_write f (results_json (cdir c'))); cbn [fst snd]; [|cbn; rewrite H1; reflexivity].
+    rewrite write_file_eq. destruct (can_write _ (results_csv (cdir c'))); cbn; rewrite H1, H2; reflexivity.
+Qed.
+
+Lemma keeps_item_res c (P : N -> Prop) i :
+  (forall id, i = WResults c id -> P id) -> keepsR true (res_ok c P) (item_prog i).
+Proof.
+  intros HP.
+  assert (Hav : forall A (m : M A), all_prog noresjson m -> keepsR true (res_ok c P) m).
+  { intros A m H. eapply keepsR_avoid; [apply at_path_stable, at_path_res_ok|].
+    intros f. specialize (H f). rewrite forallb_forall in *. intros o Ho. apply noresjson_avoids, H, Ho. }
+  destruct i; cbn [item_prog].
+  - apply Hav, nr_ctx_init.
+  - apply Hav. unfold ctx_store. apply all_bind; [apply nr_transaction, nr_store_model_entry | intro].
+    apply all_bind; [apply nr_store_key | intro]. apply nr_store_annotation.
+  - apply Hav. unfold db_store_model_entry. apply nr_transaction, nr_store_model_entry.
+  - apply Hav, nr_metadata.
+  - apply Hav, nr_store_annotation.
+  - apply Hav, nr_store_message.
+  - apply Hav, nr_forget, nr_ctx_retrieve.
+  - apply Hav, nr_forget, nr_snapshot, nr_read_model.
+  - apply Hav, nr_forget, nr_retrieve_annotation.
+  - apply Hav, nr_forget, nr_retrieve_log.
+  - apply Hav, nr_sub_init.
+  - apply Hav. unfold sub_store. apply all_bind; [apply nr_transaction, nr_store_model_entry | intro].
+    apply all_bind; [apply nr_store_key_at | intro]. apply nr_store_annotation_at.
+  - apply Hav, nr_forget, nr_sub_retrieve.
+  - apply keeps_store_results. intros ->. apply HP. reflexivity.
+  - apply Hav, nr_forget, nr_retrieve_results.
+Qed.
+
+Lemma trace_res c (P : N -> Prop) w : forall f0,
+  (forall id, In (WResults c id) w -> P id) -> res_ok c P f0 -> always true (res_ok c P) (trace w f0) f0.
+Proof.
+  induction w as [|i w IH]; intros f0 HP H0; [exact I|]. cbn [trace]. apply always_app.
+  assert (H1 : always true (res_ok c P) (item_ops i f0) f0).
+  { apply (keeps_item_res c P i); [|exact H0]. intros id ->. apply HP. left. reflexivity. }
+  split; [exact H1|]. apply IH; [intros id Hin; apply HP; right; exact Hin | eapply always_final; eassumption].
+Qed.
+
+(* whatever results a reader of context c obtains after any crash were readable before or were stored,
+   completely, by a store_results of that context in the workload *)
+Lemma results_provenance_lemma :
+  forall (f0 : fs) (w : list witem) (k : nat) (torn : option nat) (c : option str) (id : N),
+    snd (retrieve_results c (crash_w f0 w k torn)) = inr id ->
+    snd (retrieve_results c f0) = inr id \/ In (WResults c id) w.
+Proof.
+  intros f0 w k torn c id H.
+  set (P := fun id => snd (retrieve_results c f0) = inr id \/ In (WResults c id) w).
+  assert (HR : res_ok c P (crash_w f0 w k torn)).
+  { unfold crash_w. apply (always_crash_torn (res_ok c P)); [intros id' E; left; exact E|].
+    apply trace_res; [intros id' Hin; right; exact Hin | intros id' E; left; exact E]. }
+  exact (HR id H).
 Qed.
